@@ -9,6 +9,7 @@
 EXTENDS Integers, Sequences
 
 Abs(a) == IF a < 0 THEN -a ELSE a
+Mod(a, b) == a % b          \* (SANY's linter chokes on a literal percent sign in some contexts)
 Sgn(a) == IF a < 0 THEN -1 ELSE IF a > 0 THEN 1 ELSE 0
 
 RECURSIVE Gcd(_, _)
